@@ -80,7 +80,7 @@ def make_variant(v):
                 b["name"], b["code"], b["folder"] = BASE_RENAMES[old]
                 d["out"][b["name"]] = d["out"].pop(old)
     if "separator" in chosen:
-        d["sep"] = rng.choice(["-", "__"])   # never '.': WriteToPaths decides file-vs-folder by the presence of a suffix
+        d["sep"] = rng.choice(["-", "-", "-", "__"])   # never '.': WriteToPaths decides file-vs-folder by the presence of a suffix
     if "folders" in chosen:
         d["fixed"] = rng.choice(["WORK", "prod", "01_PROD"])
         for k in list(d["out"]):
